@@ -5,6 +5,7 @@ from __future__ import annotations
 import os
 from pathlib import Path
 from typing import cast
+from urllib.parse import unquote
 
 from docutils import nodes
 from markdown_it.tree import SyntaxTreeNode
@@ -69,6 +70,17 @@ class SphinxRenderer(DocutilsRenderer):
             )
         return destination
 
+    def _decode_destination(self, href: str) -> tuple[str, str | None]:
+        """Split a local destination into path and ``#`` fragment, and decode both.
+
+        The split comes first and the decoding is complete: ``normalizeLinkText``
+        is meant for display and keeps e.g. ``%25`` and ``%23`` encoded,
+        so a file name containing ``%`` or ``#`` could never be matched.
+        """
+        path, sep, fragment = href.partition("#")
+        path = self._handle_relative_docs(unquote(path))
+        return path, (unquote(fragment) if sep else None)
+
     def render_link_project(self, token: SyntaxTreeNode) -> None:
         destination = cast(str, token.attrGet("href") or "")
         if destination.startswith("project:"):
@@ -79,10 +91,7 @@ class SphinxRenderer(DocutilsRenderer):
         if not self.sphinx_env.srcdir:  # not set in some test situations
             return self.render_link_url(token)
 
-        destination = self.md.normalizeLinkText(destination)
-        destination = self._handle_relative_docs(destination)
-        path_dest, *_path_ids = destination.split("#", maxsplit=1)
-        path_id = _path_ids[0] if _path_ids else None
+        path_dest, path_id = self._decode_destination(destination)
         explicit = (token.info != "auto") and (len(token.children or []) > 0)
         try:
             _, abs_path = self.sphinx_env.relfn2path(path_dest, self.sphinx_env.docname)
@@ -107,10 +116,10 @@ class SphinxRenderer(DocutilsRenderer):
             refexplicit=explicit,
         )
         classes = ["xref", "myst"]
-        self._process_wrap_node(wrap_node, token, explicit, classes, destination)
+        self._process_wrap_node(wrap_node, token, explicit, classes, path_dest)
 
     def render_link_path(self, token: SyntaxTreeNode) -> None:
-        destination = self.md.normalizeLinkText(cast(str, token.attrGet("href") or ""))
+        destination = unquote(cast(str, token.attrGet("href") or ""))
         if destination.startswith("path:"):
             destination = destination[5:]
         destination = self._handle_relative_docs(destination)
@@ -138,8 +147,10 @@ class SphinxRenderer(DocutilsRenderer):
         """Render link token `[text](link "title")`,
         where the link has not been identified as an external URL.
         """
-        destination = self.md.normalizeLinkText(cast(str, token.attrGet("href") or ""))
-        destination = self._handle_relative_docs(destination)
+        path_dest, path_id = self._decode_destination(
+            cast(str, token.attrGet("href") or "")
+        )
+        destination = path_dest if path_id is None else f"{path_dest}#{path_id}"
 
         explicit = (token.info != "auto") and (len(token.children or []) > 0)
         kwargs = {
@@ -147,9 +158,6 @@ class SphinxRenderer(DocutilsRenderer):
             "reftype": "myst",
             "refexplicit": explicit,
         }
-        path_dest, *_path_ids = destination.split("#", maxsplit=1)
-        path_id = _path_ids[0] if _path_ids else None
-
         potential_path: None | Path = None
         if self.sphinx_env.srcdir:  # not set in some test situations
             try:
